@@ -48,6 +48,25 @@ func firstDisturbed(b []byte, v byte) int {
 }
 
 //go:norace
+func fillFieldIDs(s []int32) {
+	s = s[:cap(s)]
+	for i := range s {
+		s[i] = int32(i%12 + 1)
+	}
+}
+
+//go:norace
+func firstDisturbedFieldID(s []int32) int {
+	s = s[:cap(s)]
+	for i := range s {
+		if s[i] != int32(i%12+1) {
+			return i
+		}
+	}
+	return -1
+}
+
+//go:norace
 func bytesOfInt32s(s []int32) []byte {
 	if cap(s) == 0 {
 		return nil
@@ -128,7 +147,9 @@ func init() {
 			f := x.(*types.J2TStateMachine)
 			fillBytes(f.KeyCache[:cap(f.KeyCache)], poisonByte)
 			fillBytes(f.ReqsCache[:cap(f.ReqsCache)], poisonByte)
-			fillBytes(bytesOfInt32s(f.FieldCache), poisonByte)
+			// the field cache is poisoned with plausible field ids: if a stale length survives the Put, the
+			// next user replays fields that exist instead of ids that are silently skipped as unknown
+			fillFieldIDs(f.FieldCache)
 			return 0
 		},
 		Verify: func(w *simrt.World, x interface{}, tok uint64) string {
@@ -139,8 +160,8 @@ func init() {
 			if i := firstDisturbed(f.ReqsCache[:cap(f.ReqsCache)], poisonByte); i >= 0 {
 				return fmt.Sprintf("ReqsCache[%d] written after Put", i)
 			}
-			if i := firstDisturbed(bytesOfInt32s(f.FieldCache), poisonByte); i >= 0 {
-				return fmt.Sprintf("FieldCache byte %d written after Put", i)
+			if i := firstDisturbedFieldID(f.FieldCache); i >= 0 {
+				return fmt.Sprintf("FieldCache[%d] written after Put", i)
 			}
 			return ""
 		},
